@@ -113,10 +113,6 @@ func newRuleguardChecker(info *linter.CheckerInfo, ctx *linter.CheckerContext) (
 		ctx:        ctx,
 		debugGroup: info.Params.String("debug"),
 	}
-	rulesFlag := info.Params.String("rules")
-	if rulesFlag == "" {
-		return c, nil
-	}
 	failOn := info.Params.String("failOn")
 	if failOn == "" {
 		if info.Params.Bool("failOnError") {
@@ -126,6 +122,10 @@ func newRuleguardChecker(info *linter.CheckerInfo, ctx *linter.CheckerContext) (
 	h, err := newErrorHandler(failOn)
 	if err != nil {
 		return nil, err
+	}
+	rulesFlag := info.Params.String("rules")
+	if rulesFlag == "" {
+		return c, nil
 	}
 
 	engine := ruleguard.NewEngine()
